@@ -1,0 +1,61 @@
+//go:build verif
+
+package virtual
+
+import (
+	"github.com/buildbarn/bb-storage/pkg/digest"
+)
+
+// VerifFileBackedFileState is a snapshot of the bookkeeping of a
+// pool-backed file and of the hard link counter that the FUSE or NFS
+// handle allocator keeps in front of it. It only exists in builds with
+// the "verif" tag, where the verification harness compares it with the
+// state of its formal model.
+type VerifFileBackedFileState struct {
+	ReferenceCount           uint
+	WritableDescriptorsCount uint
+	FrozenDescriptorsCount   uint
+	Closed                   bool
+	SizeBytes                uint64
+	IsExecutable             bool
+	ChangeID                 uint64
+	CachedDigest             digest.Digest
+	// Link count kept by the handle allocator; -1 if the leaf is
+	// not wrapped by one.
+	LinkCount int64
+}
+
+// VerifDumpFileBackedFile returns the state of a leaf created by
+// NewPoolBackedFileAllocator(), optionally wrapped by
+// FUSEStatefulHandleAllocator or NFSStatefulHandleAllocator. The second
+// return value is false if the leaf is of another type.
+func VerifDumpFileBackedFile(leaf LinkableLeaf) (VerifFileBackedFileState, bool) {
+	linkCount := int64(-1)
+	switch l := leaf.(type) {
+	case *fuseStatefulLinkableLeaf:
+		linkCount = int64(l.linkCount.Load())
+		leaf = l.LinkableLeaf
+	case *nfsStatefulLinkableLeaf:
+		l.pool.lock.RLock()
+		linkCount = int64(l.linkCount)
+		l.pool.lock.RUnlock()
+		leaf = l.LinkableLeaf
+	}
+	f, ok := leaf.(*fileBackedFile)
+	if !ok {
+		return VerifFileBackedFileState{}, false
+	}
+	f.lock.RLock()
+	defer f.lock.RUnlock()
+	return VerifFileBackedFileState{
+		ReferenceCount:           f.referenceCount,
+		WritableDescriptorsCount: f.writableDescriptorsCount,
+		FrozenDescriptorsCount:   f.frozenDescriptorsCount,
+		Closed:                   f.file == nil,
+		SizeBytes:                f.size,
+		IsExecutable:             f.isExecutable,
+		ChangeID:                 f.changeID,
+		CachedDigest:             f.cachedDigest,
+		LinkCount:                linkCount,
+	}, true
+}
